@@ -1,5 +1,5 @@
 SPECIFICATION GenSpec
-CONSTANTS NH = 2 NO = 2 NN = 2 MaxLen = 3 MaxLen2 = 1 MaxSub = 2 MaxArg = 3 Kinds = {"ref", "item", "group", "cfg", "cmd", "stage"} Fails = {0, 1, 2} FailOut = FALSE Prune = TRUE MaxDepth = 9
+CONSTANTS NH = 2 NO = 2 NN = 2 MaxLen = 3 MaxLen2 = 1 MaxSub = 2 MaxArg = 3 Kinds = {"ref", "item", "group", "cfg", "cmd", "stage"} Solo = {2} Fails = {0, 1, 2} FailOut = FALSE Prune = TRUE MaxDepth = 9
 CONSTRAINT Bound
 VIEW Skel
 INVARIANTS TypeOK AliasOK Refines Balance AllGone OneSlot
